@@ -478,6 +478,16 @@ def check_pair(d1, d2, ck):
                     ck.fail("multiply(dtype=)", "accepted-unsafe-cast", c,
                             "%s: numpy.multiply refuses dtype=%s for %s operands, numpoly returned %r (exponent %d)"
                             % (lab, d2, d1, got, hi_exp))
+                # ... unless the caller asks for it: casting="unsafe" gives numpy's (truncated) values
+                with warnings.catch_warnings(), numpy.errstate(all="ignore"):
+                    warnings.simplefilter("ignore")
+                    try:
+                        want = numpy.multiply(e1, y1, dtype=d2, casting="unsafe")
+                    except Exception:
+                        want = None
+                    if want is not None:
+                        ck.run("multiply(dtype=,casting=unsafe)", c,
+                               lambda: numpy.multiply(m1, m2, dtype=d2, casting="unsafe"), {(2,): want}, want.dtype, lab)
             # a reduction mask keeps the accumulator type
             mask = numpy.array([True, False, True])
             try:
